@@ -212,7 +212,7 @@ theorem lin_access (s : View ν α) (m : DimensionMappings) (hw : (View.access s
   have la := inBounds_length hin
   simp only [lens_length, hlen] at la
   simp only [View.specCell, View.shape]
-  rw [← mapDimensionsToSource_eq_coords hgood hw.2, hlens]
+  rw [← mapDimensionsToSource_eq_coords_of_good hgood hw.2, hlens]
   exact r4 idx (by rw [access_inBounds hw.2 la, hin])
 
 theorem lin_transpose (s : View ν α) (m : DimensionMappings) (hw : (View.transpose s m).WF)
@@ -264,7 +264,7 @@ theorem lin_transpose (s : View ν α) (m : DimensionMappings) (hw : (View.trans
         have la := inBounds_length hin
         simp only [lens_length, hlen] at la
         simp only [View.specCell, View.shape]
-        rw [← mapDimensionsToSource_eq_coords hgood hw.2, hlens]
+        rw [← mapDimensionsToSource_eq_coords_of_good hgood hw.2, hlens]
         exact r4 idx (by rw [access_inBounds hw.2 la, hin])
 
 theorem nameAt_inj {sh : Shape ν} (hn : (namesOf sh).Nodup) {p q : Nat} (hp : p < sh.length)
@@ -418,7 +418,7 @@ theorem View.layout_memory_order (v : View ν α) (hw : v.WF) (order : List ν)
     simp only [View.specGet, hin, if_true, View.specCell]
     have la' : idx.length = v.shape.length := by
       rw [la]; simp only [View.shape]; exact mapShapeToRequested_length hok
-    rw [← mapDimensionsToSource_eq_coords hgood hok,
+    rw [← mapDimensionsToSource_eq_coords_of_good hgood hok,
       h7 _ (by rw [access_inBounds hok la']; simpa [View.shape] using hin), hshape]
     congr 4
     -- reading the reindexed tuple at the positions `P` gives the tuple back
